@@ -17,6 +17,32 @@ CLAIMED = {
               "are exhaustive."),
         technique="deterministic simulation on a simulated disk; exhaustive crash-point enumeration per run + seeded deployments",
         design="§4 C16"),
+    "C03": dict(
+        level="exploration",
+        text=("Seeded search over generated deployments (every MC driver, move/composite/operation grammar, label "
+              "styles, per-atom arrays, constraints, calculator styles) under forced accept/reject, veto-all/veto-some "
+              "and pre-selected-target faults; every non-accepted trial is compared bitwise with the pre-trial snapshot "
+              "and sampled step boundaries are cross-checked against a twin rebuilt from public state."),
+        note="Sampling, not proof; verdict faults enter through a user-side criteria wrapping the real one; analytic calculators.",
+        technique="deterministic simulation at trial granularity with verdict/veto fault tapes; snapshot + twin-continuation oracles",
+        design="§4 C03"),
+    "C04": dict(
+        level="exploration",
+        text=("Same history campaign with four calculator styles (stateless, ASE caching base class, neighbour-list stub, "
+              "ASE's real LennardJones): after every trial the remembered energy/positions/cell, the cached calculator "
+              "result and the evaluation counter are compared with an independent from-scratch evaluation; a real Logger "
+              "reports the energy each step in half of the runs."),
+        note="Reference energy = analytic potential or a fresh LennardJones instance; evaluation counts judged for caching styles only, Hamiltonian moves exempt.",
+        technique="deterministic simulation with calculator-style fault dimension; independent re-evaluation oracle after every trial",
+        design="§4 C04"),
+    "C05": dict(
+        level="exploration",
+        text=("Grand-canonical deployments driven through long forced accept/reject histories of insertions, deletions and "
+              "displacements; a uid-keyed reference model of labels, particles and the particle counter is updated from "
+              "the accepted history and compared with every label-bearing (sub)move after each trial."),
+        note="Model-based sampling; identity tracked by a harness-owned per-atom array; composites with + and *, repeated objects, default labels included.",
+        technique="deterministic simulation + executable reference model (uid -> label / particle) checked after every trial",
+        design="§4 C05"),
 }
 
 NOT_APPLICABLE = {
